@@ -7,7 +7,7 @@ import ftutil as U
 
 ID = "C10"
 THEOREMS = ["C10_deepcopy", "C10_operand_unchanged", "C10_fresh", "C10_independent",
-            "C10_readonly", "C10_S17_unfixed_refuted", "C10_S16_unfixed_refuted",
+            "C10_readonly_partial", "C10_S17_unfixed_refuted", "C10_S16_unfixed_refuted",
             "C10_oracle_meaning", "C10_model_meets_spec"]
 COQ_IMPORTS = ("From FT Require Import Model.Base Model.Obs Model.C08Split Model.C10Model Model.C10Check.")
 CHECK_VO = ["Model/C10Check.v"]
